@@ -59,6 +59,7 @@ pub const KINDS: &[&str] = &[
     "cw_foreign",      // 52 (in-radius errors whose syndromes obey ANOTHER block's recurrence on a chosen set of rows)
     "snd_surplus",     // 53 (the renderer is handed a codeword buffer longer than the symbol needs)
     "cw_uniform",      // 54 (stuck-at damage that completes a uniform region - all 0xFF, say - in the received word)
+    "cw_other",        // 55 (the complete difference to ANOTHER codeword vector: the in-radius damage then lies around that one; premise by the reference model)
 ];
 
 pub fn kind_id(name: &str) -> u8 {
